@@ -92,6 +92,15 @@ let handle (line : string) : string =
       let sums = String.concat " " (List.init n (fun i ->
         let (a, t) = (get st' (nat_of_int i)).sums in string_of_z a ^ ":" ^ string_of_z t)) in
       ids_or_dash (List.map (fun r -> r.rid) order) ^ " | " ^ vs ^ " | " ^ sums
+  | "BASIC" ->   (* BASIC icc n (opt act fals blanket inter)*n *)
+      let icc = next_int () = 1 in
+      let n = next_int () in
+      let fl = Array.init n (fun _ -> let o = next_int () in let a = next_int () in let f = next_int () in
+                                      let b = next_int () in let i = next_int () in (o, a, f, b, i)) in
+      let rs = List.init n (fun i -> let (o, a, _, b, it) = fl.(i) in
+        { b_req = { rid = nat_of_int i; optional = (o = 1); active = (a = 1) }; b_blanket = (b = 1); b_inter = (it = 1) }) in
+      let s (i : nat) = let j = int_of_nat i in j < n && (let (_, _, f, _, _) = fl.(j) in f = 1) in
+      (match basic_check icc rs s with Accept -> "accept" | Reject r -> "reject " ^ string_of_int (int_of_nat r))
   | "SEP" -> let n = next_vec () in let d = next_q () in let m = next_q () in
              let a = verts () in let b = verts () in if separates n d m a b then "1" else "0"
   | "COM" -> let e = next_q () in let la = weights () in let a = verts () in
